@@ -521,7 +521,7 @@ def r14(rr, repo):
                  "publisher's high-water mark drops some, the join then adopts the newer id and forces the slow source to skip) - shares C04.R10")
 def r15(rr, repo):
     from .c04 import r10 as c04r10
-    c04r10(rr, repo)
+    c04r10(rr, repo, balanced=False)      # C03's topologies have no balanced stages
 
 
 @rule('C03.R16', "a frame a join already holds is not thrown away by a routine re-entry into recv(): the sets kept by a timed-out call are dropped only when the caller really moved on to a newer id "
@@ -529,3 +529,18 @@ def r15(rr, repo):
 def r16(rr, repo):
     from .c01 import r9 as c01r9
     c01r9(rr, repo)
+
+
+@rule('C03.R17', "a frame set that was accepted for publishing reaches a consumer that is waiting for it: one set is a burst of (topics + 1) messages on a PUB socket whose queue holds ZMQ_PUB_HWM messages and silently "
+                 "drops what does not fit - the publisher relates the size of the burst to that bound (refuses the set, splits it, waits for the queue, or sizes the queue from it); with nothing of the kind a "
+                 "set of a dozen topics loses messages although nobody is slow, the consumer skips the incomplete id and send() has returned success")
+def r17(rr, repo):
+    za = anchors(repo)
+    hwm = [c for c in q.calls_in(za.S_init) if isinstance(c.func, ast.Attribute) and c.func.attr == 'setsockopt' and c.args and U(c.args[0]).endswith('SNDHWM')]
+    rr.floor('high-water marks set on the PUB sockets', len(hwm), 1, za.mod, za.S_init)
+    bound = U(hwm[0].args[1]) if hwm and len(hwm[0].args) > 1 else None
+    sized = [n for fn in (za.S_send, za.S_maybe) for n in ast.walk(fn) if isinstance(n, ast.Compare) and any(isinstance(x, ast.Call) and U(x.func) == 'len' and 'topicmsgs' in U(x) for x in ast.walk(n))
+             and any('HWM' in U(x) or (bound and U(x) == bound) for x in ast.walk(n))]
+    resize = [c for fn in (za.S_send, za.S_maybe) for c in q.calls_in(fn) if isinstance(c.func, ast.Attribute) and c.func.attr == 'setsockopt' and c.args and U(c.args[0]).endswith('SNDHWM')]
+    rr.ob('the number of messages of one frame set is related to the bound of the PUB queue it is pushed into', bool(sized) or bool(resize), za.mod, hwm[0] if hwm else za.S_maybe,
+          witness=f'PUB queue bound: {bound} = {za.consts_env.get(bound) if bound else None} messages; comparisons of len(topicmsgs) with it in send(): none; the queue is never re-sized', key='set-burst-vs-pub-queue')
